@@ -173,8 +173,10 @@ def prox_2_3(x, u):
     t = 2.*(2./3. * u)**(3./4.)
     if np.abs(x) < t:
         return 0.
-    z = (x**2 / 16 + np.sqrt(x**4/256 - 8 * u**3 / 729))**(1./3.) + (
-        x**2 / 16 - np.sqrt(x**4/256 - 8 * u**3 / 729))**(1./3.)
+    # the two cube-rooted terms have product 8 u^3 / 729: get the small one from
+    # the large one instead of by subtraction (catastrophic cancellation for large x)
+    big = x**2 / 16 + np.sqrt(x**4/256 - 8 * u**3 / 729)
+    z = big**(1./3.) + (8 * u**3 / 729 / big)**(1./3.)
     res = np.sign(x) * 1./8. * (
         np.sqrt(2.*z) + np.sqrt(2.*np.abs(x)/np.sqrt(2.*z)-2.*z))**3
     return res
